@@ -213,6 +213,25 @@ def XSt.get (s : XSt) (chain : String) : Option CS := (s.clients.find? (·.1 = c
 def XSt.set (s : XSt) (chain : String) (c : CS) : XSt :=
   { s with clients := (chain, c) :: s.clients.filter (·.1 ≠ chain) }
 
+/-- the features tendermint `ConsensusState.ValidateBasic` reads. -/
+structure TmCons where
+  rootEmpty : Bool := false     -- Root == nil || len(Root) == 0
+  hashOk : Bool := true         -- tmtypes.ValidateHash(NextValidatorsHash): empty or 32 bytes
+  tsPositive : Bool := true     -- Timestamp.Unix() > 0
+  deriving Repr, DecidableEq
+
+/-- tendermint `ConsensusState.ValidateBasic`. -/
+def tmConsValidate (c : TmCons) : Out Unit :=
+  if c.rootEmpty then .err "root" else
+  if !c.hashOk then .err "next-validators-hash" else
+  if !c.tsPositive then .err "timestamp" else .ok ()
+
+/-- `ConsensusState.ValidateBasic` of the four types: bsc, eth and tss accept everything. -/
+def consValidate (t : CT) (tmc : TmCons) : Out Unit :=
+  match t with
+  | .tm => tmConsValidate tmc
+  | _ => .ok ()
+
 /-- Create / Upgrade / Toggle client proposal. `absOk` = `govtypes.ValidateAbstract` ∧
 `host.ClientIdentifierValidator(ChainName)` (total functions of strings). -/
 structure ClientProp where
@@ -220,15 +239,22 @@ structure ClientProp where
   chain : String
   cs : AnyV CS
   cons : AnyV CT
+  tmc : TmCons := {}            -- content of the consensus state when it is a tendermint one
   deriving Repr
 
-/-- `ValidateBasic` of the three client proposals (identical bodies). The consensus state is NOT looked at. -/
+/-- `ValidateBasic` of the three client proposals (identical bodies). Since fafdbf1 the consensus state must unpack
+(nil `Any` / not a `ConsensusState` ⇒ error) and pass its type's `ValidateBasic`, after `clientState.Validate()`. -/
 def clientValidateBasic (p : ClientProp) : Out Unit :=
   if !p.absOk then .err "abstract" else
   match p.cs with
   | .nil => .err "unpack-nil"
   | .wrong => .err "unpack-type"
-  | .val c => csValidate c
+  | .val c => do
+    csValidate c
+    match p.cons with
+    | .nil => .err "unpack-nil"
+    | .wrong => .err "unpack-type"
+    | .val t => consValidate t p.tmc
 
 def unpack {α} : AnyV α → Out α
   | .nil => .err "unpack-nil" | .wrong => .err "unpack-type" | .val a => .ok a
